@@ -44,9 +44,11 @@ class LabelToInfo(MutableMapping[int, Optional[Info]]):
         self.empty_list = empty_list
 
     def __getitem__(self, label: int) -> Optional[Info]:
+        if label < 0:
+            return None
         try:
             return Info(self.comb_class_list[label], label, self.empty_list[label])
-        except KeyError:
+        except (KeyError, IndexError):
             return None
 
     def __setitem__(self, key: int, value: Optional[Info]) -> None:
